@@ -185,6 +185,11 @@ def run(ctx):
                       % (text, nm, nm, sc))
     corr += [(nm, k, "", a, b, sc) for (nm, k, a, b, sc) in wcorr]
 
+    # ---------------- stage 2c: the staging-loop matrix (vlib/stagecamp.py): one short transfer inside the staging loop of every write kernel ----------
+    from .. import stagecamp
+    if stagecamp.run(ctx, "C15"):
+        found_input = True
+
     # ---------------- stage 3: K-complete enumeration on the implementation ----------------------------------------
     reps = [L.Rep(*r) for r in L.REPS]          # the whole list fits the quick budget (about 15 s); the tiers differ in the L1 set and timeouts
     from .. import c15extra                      # foreign-but-valid multi-block headers; the rdwr workload through sf_read_raw / sf_write_raw
@@ -292,6 +297,9 @@ def replay(ctx, path):
     if "c15-wrapper-case " in text:
         from .. import c15wrap
         return c15wrap.replay(ctx, path, text)
+    from .. import stagecamp
+    if stagecamp.is_replay(text):
+        return stagecamp.replay(ctx, path, text)
     head, script = text.split("--- script", 1)
     script = script.lstrip("\n")
     cat = next((l.split()[1] for l in head.split("\n") if l.startswith("c15-category ")), None)
